@@ -109,7 +109,7 @@ def main():
          "cwd": os.getcwd(), "pgid": os.getpgid(0), "ppid": os.getppid(), "sid": os.getsid(0),
          "stdin": stdin_target, "env": env})
 
-    state = {"term_at": None}
+    state = {"term_at": None, "end": None}
 
     def on_sig(signo, _frame):
         log({"ev": "sig", "test": name, "attempt": attempt, "signo": signo, "who": "test"})
@@ -117,7 +117,14 @@ def main():
         if signo == signal.SIGTSTP:
             tstp = beh.get("tstp", "stop")
             if tstp == "stop":
+                t_stop = time.monotonic()
                 os.kill(os.getpid(), signal.SIGSTOP)
+                # resumed: time spent stopped does not count towards the scripted duration
+                gone = time.monotonic() - t_stop
+                if state["end"] is not None:
+                    state["end"] += gone
+                if state["term_at"] is not None:
+                    state["term_at"] += gone
             elif tstp == "exit":
                 log({"ev": "end", "test": name, "attempt": attempt, "how": "exit-on-tstp"})
                 os._exit(beh.get("exit", 0))
@@ -180,15 +187,15 @@ def main():
     if beh.get("stderr") is not None:
         write_stream(2, beh.get("stderr"))
 
-    end = time.monotonic() + beh.get("sleep", 0)
+    state["end"] = time.monotonic() + beh.get("sleep", 0)
     while True:
         now = time.monotonic()
         if state["term_at"] is not None and now >= state["term_at"]:
             log({"ev": "end", "test": name, "attempt": attempt, "how": "late-exit-after-signal"})
             os._exit(beh.get("term_exit", 1))
-        if now >= end:
+        if now >= state["end"]:
             break
-        time.sleep(min(0.01, end - now))
+        time.sleep(min(0.01, max(0.0, state["end"] - now)))
 
     if beh.get("final_stdout") is not None:
         write_stream(1, beh.get("final_stdout"))
